@@ -168,6 +168,37 @@ def zero_init_programs(with_direct=True, groups=None):
     return out
 
 
+# several entry points in ONE module sharing helpers (what an entry point uses is computed per entry point, possibly
+# with results cached per helper): call graphs in which a LATER entry point reaches the variables only through a helper
+# that an EARLIER entry point already walked.  -> [(name, src, meta)], meta["ep"] = the entry point to run
+MULTI_EP = {
+    "diamond_ab_then_b": ("fn leaf() -> u32 { return $R; }\nfn side_a() -> u32 { return leaf() + 1u; }\nfn side_b() -> u32 { return leaf() + 2u; }\n",
+                          [("pass_a", "o[0] = side_a() + side_b() + 100u;"), ("pass_b", "o[0] = side_b() + 100u;")]),
+    "diamond_ba_then_a": ("fn leaf() -> u32 { return $R; }\nfn side_a() -> u32 { return leaf() + 1u; }\nfn side_b() -> u32 { return leaf() + 2u; }\n",
+                          [("pass_a", "o[0] = side_b() + side_a() + 100u;"), ("pass_b", "o[0] = side_a() + 100u;")]),
+    "chain_shared_leaf_three_entry_points": (
+        "fn leaf() -> u32 { return $R; }\nfn mid() -> u32 { return leaf() + 1u; }\nfn top_a() -> u32 { return mid() + leaf(); }\nfn top_b() -> u32 { return mid() + 2u; }\n",
+        [("pass_a", "o[0] = top_a() + 100u;"), ("pass_b", "o[0] = top_b() + 100u;"), ("pass_c", "o[0] = mid() + 100u;")]),
+    "leaf_direct_then_via_helper_in_continuing": (
+        "fn leaf() -> u32 { return $R; }\nfn side_b() -> u32 { return leaf() + 2u; }\n",
+        [("pass_a", "o[0] = leaf() + side_b() + 100u;"),
+         ("pass_b", "var i = 0u; loop { if (i >= 2u) { break; } continuing { o[i] = side_b() + 100u; i += 1u; } }")]),
+}
+
+
+def multi_entry_programs(groups=None):
+    out = []
+    for gi, group in enumerate((groups or WG_GROUPS)[:3]):
+        pre, decls, R, _tys = _wg_decls(group)
+        for site, (helpers, eps) in MULTI_EP.items():
+            src = pre + decls + "@group(0) @binding(0) var<storage, read_write> o: array<u32, 8>;\n" + helpers.replace("$R", R)
+            for epn, body in eps:
+                src += "@compute @workgroup_size(1)\nfn %s(@builtin(local_invocation_id) lid: vec3<u32>) {\n  %s\n}\n" % (epn, body.replace("$R", R))
+            for epn, _b in eps:
+                out.append(("zi_%s_g%d@%s" % (site, gi, epn), src, {"site": site + ":" + epn, "types": list(group), "space": "workgroup", "ep": epn}))
+    return out
+
+
 # private / function variables without initialiser: zero on every execution of the declaration
 PF_TYPES = [t for t in WG_TYPES if "atomic" not in t[0]]
 
